@@ -98,6 +98,70 @@ func c19WithWriteFailure(fail bool, fn func()) {
 	fn()
 }
 
+// c19WithReadFailure runs fn while the settings file cannot be READ (open fails with EACCES) although
+// its directory is writable -- a file left behind by another user, an ACL, an LSM. chmod 000 does that
+// for an ordinary user; for root the file-system uid of the process is switched to nobody (setfsuid:
+// permission checks of file accesses only) for the duration of fn.
+func c19WithReadFailure(fail bool, dir, fname string, fn func()) {
+	if !fail {
+		fn()
+		return
+	}
+	for _, d := range []string{filepath.Dir(dir), dir, filepath.Dir(fname)} {
+		if filepath.Base(d) != "c19set" && d == filepath.Dir(dir) {
+			continue // only directories the harness made itself
+		}
+		os.Chmod(d, 0o777)
+	}
+	os.Chmod(fname, 0)
+	defer os.Chmod(fname, 0o644)
+	if os.Geteuid() != 0 {
+		fn()
+		return
+	}
+	runtime.LockOSThread()
+	defer runtime.UnlockOSThread()
+	if err := syscall.Setfsgid(65534); err != nil {
+		panic(err)
+	}
+	if err := syscall.Setfsuid(65534); err != nil {
+		panic(err)
+	}
+	defer func() {
+		syscall.Setfsuid(0)
+		syscall.Setfsgid(0)
+		// whatever fn created belongs to nobody: hand it back so that later steps are not affected
+		os.Chown(fname, 0, 0)
+	}()
+	fn()
+}
+
+var c19ReadFaultProbe = 0 // 0 unknown, 1 works, 2 does not
+
+// c19ReadFaultWorks probes once whether c19WithReadFailure really makes a read fail with a
+// permission error (it needs CAP_SETUID as root); if not, read faults are not generated.
+func c19ReadFaultWorks() bool {
+	if c19ReadFaultProbe == 0 {
+		c19ReadFaultProbe = 2
+		dir, _ := filepath.Abs("c19probe")
+		os.MkdirAll(filepath.Join(dir, "pprof"), 0o777)
+		f := filepath.Join(dir, "pprof", "probe.json")
+		os.WriteFile(f, []byte("{}"), 0o644)
+		func() {
+			defer func() { recover() }()
+			c19WithReadFailure(true, dir, f, func() {
+				_, err := os.ReadFile(f)
+				_, err2 := os.CreateTemp(filepath.Dir(f), "t*")
+				if os.IsPermission(err) && err2 == nil {
+					c19ReadFaultProbe = 1
+				}
+			})
+		}()
+		os.RemoveAll(dir)
+	}
+	return c19ReadFaultProbe == 1
+}
+
 // c19FileAgrees decodes the settings file INDEPENDENTLY of the code under test (encoding/json into
 // generic maps) and compares names and saved options with what readSettings returns in this
 // process: state that lives in the process (a cache, a shared slice) and not in the file shows here.
@@ -193,7 +257,7 @@ type c19Op struct {
 
 func (o c19Op) term() Term {
 	switch o.kind {
-	case "save", "menu", "save!":
+	case "save", "menu", "save!", "save?", "menu?":
 		return L(S(o.kind), c19ValuesTerm(o.q))
 	default:
 		return L(S(o.kind), S(o.name))
@@ -242,22 +306,36 @@ func c19RunSettings(c *Ctx, fields []driver.VerifField) {
 		var opT, obs []Term
 		nt := false
 		for _, o := range ops {
+			if strings.HasSuffix(o.kind, "?") {
+				// a read fault needs a file to read (a missing file is "no configs yet" for everybody)
+				// and an environment in which the fault can be produced
+				if _, err := os.Stat(fname); err != nil || !c19ReadFaultWorks() {
+					o.kind = strings.TrimSuffix(o.kind, "?")
+				}
+			}
 			opT = append(opT, o.term())
 			c19Collect(strs, o.q)
 			c19Collect(jstrs, o.q)
+			readFault := strings.HasSuffix(o.kind, "?")
 			switch o.kind {
-			case "save", "save!":
+			case "save", "save!", "save?":
 				var err error
-				c19WithWriteFailure(o.kind == "save!", func() { err = driver.VerifSetConfig(fname, c19URLOf(o.q)) })
+				c19WithReadFailure(readFault, dir, fname, func() {
+					c19WithWriteFailure(o.kind == "save!", func() { err = driver.VerifSetConfig(fname, c19URLOf(o.q)) })
+				})
 				obs = append(obs, L(ZI(c19SettingsErrCode(err)), c19SettingsState(fname), Bool(c19FileAgrees(fname, fields))))
 				nt = nt || err == nil
-			case "delete", "delete!":
+			case "delete", "delete!", "delete?":
 				var err error
-				c19WithWriteFailure(o.kind == "delete!", func() { err = driver.VerifRemoveConfig(fname, o.name) })
+				c19WithReadFailure(readFault, dir, fname, func() {
+					c19WithWriteFailure(o.kind == "delete!", func() { err = driver.VerifRemoveConfig(fname, o.name) })
+				})
 				obs = append(obs, L(ZI(c19SettingsErrCode(err)), c19SettingsState(fname), Bool(c19FileAgrees(fname, fields))))
 				nt = nt || err == nil
-			case "menu":
-				obs = append(obs, L(ZI(0), c19MenuTerm(fname, o.q)))
+			case "menu", "menu?":
+				var m Term
+				c19WithReadFailure(readFault, dir, fname, func() { m = c19MenuTerm(fname, o.q) })
+				obs = append(obs, L(ZI(0), m))
 			}
 		}
 		in := L(S("seq"), c19PfTable(strs), c19JsTable(jstrs), c19CfgTerm(cur), initT, L(opT...))
@@ -302,12 +380,16 @@ func c19RunSettings(c *Ctx, fields []driver.VerifField) {
 				kind := "save"
 				if c.R.P(1, 5) {
 					kind = "save!" // the write to disk fails
+				} else if c.R.P(1, 6) {
+					kind = "save?" // the settings file cannot be read (EACCES)
 				}
 				ops = append(ops, c19Op{kind: kind, q: q})
 			case 3:
 				kind := "delete"
 				if c.R.P(1, 4) {
 					kind = "delete!"
+				} else if c.R.P(1, 6) {
+					kind = "delete?"
 				}
 				ops = append(ops, c19Op{kind: kind, name: PickS(c.R, c19Names)})
 			default:
@@ -379,11 +461,17 @@ func c19RunSettings(c *Ctx, fields []driver.VerifField) {
 			ops = append(ops, c19Op{kind: "menu", q: url.Values{}}) // something has read the file before
 		}
 		for i, n := 0, 1+c.R.Intn(2); i < n; i++ {
-			switch c.R.Intn(5) {
+			switch c.R.Intn(8) {
 			case 0, 1:
 				ops = append(ops, c19Op{kind: "delete!", name: existing()})
 			case 2, 3:
 				ops = append(ops, c19Op{kind: "save!", q: url.Values{"config": {existing()}, "f": {"changed"}, "h": {"changed"}}})
+			case 4: // the read of the file fails: nothing may be saved, deleted or lost
+				ops = append(ops, c19Op{kind: "save?", q: url.Values{"config": {PickS(c.R, []string{"a", "newq"})}, "f": {"changed"}}})
+			case 5:
+				ops = append(ops, c19Op{kind: "delete?", name: existing()})
+			case 6:
+				ops = append(ops, c19Op{kind: "menu?", q: url.Values{}})
 			default: // refused before any write: bad option value / unknown name
 				if c.R.Bool() {
 					ops = append(ops, c19Op{kind: "save", q: url.Values{"config": {existing()}, "f": {"changed"}, "n": {"zz"}}})
@@ -406,6 +494,7 @@ func c19RunSettings(c *Ctx, fields []driver.VerifField) {
 		}
 		seqCase("seq-failed-edit", driver.VerifDefaultConfig(), "good", names, cfgs, ops)
 	}
+	c.Extra["read_faults_producible"] = c19ReadFaultWorks()
 	c19RunConc(c, fields)
 	c19RunBurst(c, fields)
 }
@@ -644,6 +733,8 @@ func c19EditsChild(args []string) {
 		code := c19SettingsErrCode(err)
 		if code == 6 {
 			o.kind += "!"
+		} else if i == 0 && len(args) > 2 && args[2] == "read" {
+			o.kind += "?" // the hook makes the open/read of the settings file fail during this edit
 		}
 		opT = append(opT, o.term())
 		obs = append(obs, L(ZI(code), c19SettingsState(fname), Bool(c19FileAgrees(fname, fields))))
